@@ -55,6 +55,8 @@ def xop : P XOp
   | "U" :: ts => some (.op .setUndeclared, ts)
   | "E" :: ts => some (.op .phaseEnd, ts)
   | "A" :: ts => match nat ts with | some (r, ts) => some (.addResult r, ts) | none => none
+  -- a write into the copy handed out by get_measurement(): not an assignment to the measurement, nothing changes
+  | "G" :: ts => some (.addResult 0, ts)
   | _ => none
 
 def showRes : Res → String
@@ -103,10 +105,15 @@ def failuresAt (decls : List Decl) (opsSoFar : List Op) (real : String) (prevRea
         (if ended && !re.isEmpty then
            let allAcc := re.all (fun e => (d.verdicts e.2).all isAccept)
            (if outcome == (if allAcc then "PASS" else "FAIL") then [] else ["dimensioned-outcome"]) ++
-           (if res == "raised" && allAcc then ["phase-error-without-raising-validator"] else []) ++
            (if marg == "1" && outcome != "PASS" then ["marginal-without-pass"] else [])
          else [])
     | _ => ["malformed-observation"])) ++
+  -- a phase end that reports an error comes from a validator that raised on a recorded value of SOME dimensioned
+  -- measurement (judged over all of them: one raising validator does not excuse or accuse the others)
+  (if ended && lastOp == some .phaseEnd && res == "raised" &&
+      (decls.zipIdx.all (fun (d, i) => d.arity.isNone ||
+        (refEntries d i opsSoFar).all (fun e => (d.verdicts e.2).all (fun v => v != .raises))))
+   then ["phase-error-without-raising-validator"] else []) ++
   -- rejected operations change nothing
   (match lastOp, prevReal with
    | some _, some prev =>
